@@ -174,3 +174,56 @@ def ed_small_order_points():
 def ed_encode(p):
     x, y = p
     return int(y + ((x & 1) << 255)).to_bytes(32, "little")
+
+
+# ---- concrete twins of the Ed25519 spec vocabulary used in clauses of plain functions -------------------------------------------
+def ed_Q():
+    return ED_Q
+
+
+def ed_L():
+    return ED_L
+
+
+def _repo_d():
+    """the library keeps d unreduced; any representative gives the same curve equation"""
+    return ED_D
+
+
+def ed_oncurve(x, y=None):
+    if y is None:
+        x, y = x
+    return (-x * x + y * y - 1 - ED_D * x * x * y * y) % ED_Q == 0
+
+
+ed_oncurve_def = ed_oncurve
+
+
+def ed_xrecover_def(y):
+    xx = (y * y - 1) * pow(ED_D * y * y + 1, ED_Q - 2, ED_Q)
+    x = pow(xx, (ED_Q + 3) // 8, ED_Q)
+    if (x * x - xx) % ED_Q != 0:
+        x = (x * ED_I) % ED_Q
+    if x % 2 != 0:
+        x = ED_Q - x
+    return x
+
+
+ed_xrecover = ed_xrecover_def
+
+
+def ed_decode_xy(s):
+    u = int.from_bytes(bytes(s[:32]), "little")
+    y = u % (1 << 255)
+    x0 = ed_xrecover_def(y)
+    sign = (u >> 255) % 2
+    x = ED_Q - x0 if ((x0 % 2 == 1) != (sign == 1)) else x0
+    return (x, y)
+
+
+def ed_encode_xy(x, y):
+    return int(y + (1 << 255) * (x % 2)).to_bytes(32, "little")
+
+
+def ent(e, k, n):
+    raise NotImplementedError("entropy streams have no concrete twin")
